@@ -231,6 +231,19 @@ func driveMag(r *rand.Rand, w *writer, n int) {
 		case "bool":
 			s, c, _ := genBoolInput(r)
 			e.Subj, e.Clip = s, nz(c)
+			if r.Intn(5) == 0 {
+				// special positions: two sloping edges crossing strictly inside a scan-beam at exactly the origin
+				// (and the whole figure straddling both axes) - a value that in-band "unset" markers collide with
+				tri := func() Path {
+					a, b := int64(2+r.Intn(20)), int64(1+r.Intn(20))
+					k1, k2 := int64(1+r.Intn(3)), int64(1+r.Intn(3))
+					sg := int64(1 - 2*r.Intn(2))
+					p1, p2 := Pt{-a * k1, -sg * b * k1}, Pt{a * k2, sg * b * k2} // through the origin
+					p3 := Pt{int64(r.Intn(81) - 40), int64(r.Intn(81) - 40)}
+					return Path{p1, p2, p3}
+				}
+				e.Subj, e.Clip = Paths{tri()}, Paths{tri()}
+			}
 		case "rect":
 			e.Subj = genClosedSet(r, []int{0, 1, 2, 6, 7}[r.Intn(5)])
 			for _, q := range e.Subj { // simple-ish inputs: the even-turns finding belongs to C06
